@@ -1,12 +1,18 @@
 (* Correspondence + property predicate for C05 *)
-From Fnd Require Export Base.Prelude Model.Cache Model.Nonce Model.Batch.
+From Fnd Require Export Base.Prelude Model.Cache Model.Nonce Model.Batch Model.Auth Model.Gate Model.Pipeline.
 
 (* one step of a history with what was observed after it *)
 Inductive hstep :=
-| HSub (id s n bi : N) (ok : bool) (led : list (N * list N))          (* submission: accepted?, ledger after *)
+| HSub (id s n bi : N) (bad ok : bool) (led : list (N * list N))      (* submission: made invalid by the generator?, accepted?, ledger after *)
 | HBat (ids : list N) (res : list ires) (led : list (N * list N)).    (* batch: replies, ledger after *)
 
-Record case := mkCase { c_bodies : list body; c_l0 : list (N * list N); c_hist : list hstep }.
+(* one whole invocation (gate, authentication, pending store, batch / task execution) with the response class and
+   the ledger observed after it *)
+Notation pstep := (preq * presp * list (N * list N))%type (only parsing).
+
+Inductive case :=
+| mkCase (c_bodies : list body) (c_l0 : list (N * list N)) (c_hist : list hstep)
+| mkPipe (e : penv) (l0 : list (N * list N)) (steps : list pstep).
 
 Definition same_led (m : ledger) (l : list (N * list N)) : bool :=
   let ml : ledger := list_to_map l in
@@ -15,12 +21,24 @@ Definition same_led (m : ledger) (l : list (N * list N)) : bool :=
 Fixpoint m_hist (bodies : list body) (l : ledger) (h : list hstep) : bool :=
   match h with
   | [] => true
-  | HSub id s n bi ok led :: r =>
-    let l' := if ok then submit l id s n bi else l in same_led l' led && m_hist bodies l' r
+  | HSub id s n bi bad ok led :: r =>
+    (* validation itself is C01's / C02's model; here a request is refused exactly when the generator broke it *)
+    let l' := if negb bad then submit l id s n bi else l in Bool.eqb ok (negb bad) && same_led l' led && m_hist bodies l' r
   | HBat ids res led :: r =>
     let '(l', rs) := batch_exec bodies l ids in bool_decide (rs = res) && same_led l' led && m_hist bodies l' r
   end.
-Definition corr (c : case) : bool := m_hist (c_bodies c) (list_to_map (c_l0 c)) (c_hist c).
+Fixpoint m_pipe (e : penv) (l : ledger) (steps : list pstep) : bool :=
+  match steps with
+  | [] => true
+  | (r, resp, led) :: t =>
+    let '(l', x) := p_step e l r in bool_decide (x = resp) && same_led l' led && m_pipe e l' t
+  end.
+
+Definition corr (c : case) : bool :=
+  match c with
+  | mkCase bodies l0 h => m_hist bodies (list_to_map l0) h
+  | mkPipe e l0 steps => m_pipe e (list_to_map l0) steps
+  end.
 
 (* the property, on observed ledgers and replies only *)
 Definition lget (l : list (N * list N)) (k : N) : list N := led_get (list_to_map l) k.
@@ -30,7 +48,9 @@ Definition is_exec (r : ires) : bool := negb (bool_decide (r = IErr INotFound)).
 Fixpoint p_hist (prev : list (N * list N)) (submitted executed : list N) (h : list hstep) : bool :=
   match h with
   | [] => true
-  | HSub id s n bi ok led :: r =>
+  | HSub id s n bi bad ok led :: r =>
+    (* a submission that fails validation is refused *)
+    (negb bad || negb ok) &&
     (* records only: exactly the pending key appears (nothing when rejected) *)
     forallb (fun k => if N.eqb k (pk id) && ok then bool_decide (lget led k = [s; n; bi])
                       else bool_decide (lget led k = lget prev k)) (pk id :: keys_of prev led) &&
@@ -51,11 +71,94 @@ Fixpoint p_hist (prev : list (N * list N)) (submitted executed : list N) (h : li
          else go t done
        end) (combine ids res) executed
   end.
-Definition holds (c : case) : bool := p_hist (c_l0 c) [] [] (c_hist c).
+(* whole invocations.  "Validation" is the gate and the authentication procedure (Model/Gate.v, Model/Auth.v; what
+   acceptance by them means is C11's and C01's theorems); everything else is read off the observations. *)
+Definition same_obs (a b : list (N * list N)) : bool :=
+  forallb (fun k => bool_decide (lget a k = lget b k)) (keys_of a b).
+Definition passes_gate (e : penv) (cr : creator) : bool :=
+  match invoke_gate (pe_cfg e) cr (FMethod (pe_method e)) with GHandled _ => true | _ => false end.
+Definition auth_ok (i : authin) : bool := match auth i with Ok _ => true | Err _ => false end.
+
+Fixpoint p_pipe (e : penv) (prev : list (N * list N)) (submitted executed : list N) (steps : list pstep) : bool :=
+  match steps with
+  | [] => true
+  | (PSubmit cr id i bi, resp, led) :: t =>
+    match resp with
+    | RRecorded =>
+      (* recorded only for a request that passes the gate and authenticates, and exactly as authenticated *)
+      passes_gate e cr &&
+      match auth i with
+      | Ok o => forallb (fun k => if N.eqb k (pk id) then bool_decide (lget led k = [r_addr o; dec_val (r_nonce o); bi])
+                                  else bool_decide (lget led k = lget prev k)) (pk id :: keys_of prev led)
+      | Err _ => false
+      end && p_pipe e led (id :: submitted) executed t
+    | RItems _ => false
+    | _ => same_obs prev led && p_pipe e led submitted executed t      (* refused: nothing recorded, nothing changed *)
+    end
+  | (PBatch cr ids, resp, led) :: t =>
+    match resp with
+    | RItems res =>
+      is_robot (pe_cfg e) cr && (length ids =? length res)%nat &&
+      forallb (fun id => bool_decide (lget led (pk id) = [])) ids &&
+      forallb (fun p => if bool_decide (lget prev (pk (fst p)) = []) then bool_decide (snd p = IErr INotFound) else true)
+              (combine ids res) &&
+      (fix go (xs : list (N * ires)) (done : list N) : bool :=
+         match xs with
+         | [] => p_pipe e led submitted done t
+         | (id, x) :: r =>
+           if is_exec x then existsb (N.eqb id) submitted && negb (existsb (N.eqb id) done) && go r (id :: done)
+           else go r done
+         end) (combine ids res) executed
+    | RRecorded => false
+    | _ => same_obs prev led && p_pipe e led submitted executed t
+    end
+  | (PTasks cr ts, resp, led) :: t =>
+    match resp with
+    | RItems res =>
+      (length ts =? length res)%nat &&
+      (* a task that does not authenticate (or whose method is disabled) has no effect and reports an error;
+         pending records are never touched by a task list *)
+      forallb (fun p => auth_ok (fst (fst p)) || match snd p with IErr _ => true | IOk _ _ _ => false end) (combine ts res) &&
+      (existsb (fun tk => auth_ok (fst tk)) ts || same_obs prev led) &&
+      forallb (fun k => negb (N.eqb (k mod 4) 1) || bool_decide (lget led k = lget prev k)) (keys_of prev led) &&
+      p_pipe e led submitted executed t
+    | RRecorded => false
+    | _ => same_obs prev led && p_pipe e led submitted executed t
+    end
+  end.
+
+Definition holds (c : case) : bool :=
+  match c with
+  | mkCase _ l0 h => p_hist l0 [] [] h
+  | mkPipe e l0 steps => p_pipe e l0 [] [] steps
+  end.
 
 Definition label (c : case) : N :=
-  fold_right (fun st a => N.lor a match st with
-    | HSub _ _ _ _ true _ => 1 | HSub _ _ _ _ false _ => 2
+  match c with
+  | mkCase _ _ h => fold_right (fun st a => N.lor a match st with
+    | HSub _ _ _ _ _ true _ => 1 | HSub _ _ _ _ false false _ => 2 | HSub _ _ _ _ true false _ => 512
     | HBat ids res _ => fold_right (fun r b => N.lor b match r with
         | IOk _ _ _ => 4 | IErr INotFound => 8 | IErr IMalformed => 16 | IErr (INonce _) => 32 | IErr IBody => 64 | IErr IPanic => 128 | IErr IOther => 256 end) 0 res
-    end)%N 0%N (c_hist c).
+    end)%N 0%N h
+  | mkPipe _ _ steps => fold_right (fun st a => N.lor a match snd (fst st) with
+      | RGate GCreatorErr => 1024 | RGate GUnauthorized => 2048 | RGate _ => 4096
+      | RAuth EBadSig => 8192 | RAuth EName => 16384 | RAuth EBlack => 32768 | RAuth EGrey => 65536 | RAuth EAcl => 131072
+      | RAuth _ => 262144 | RRecorded => 524288
+      | RItems res => 1048576 + fold_right (fun r b => N.lor b match r with
+           | IOk _ _ _ => 4 | IErr INotFound => 8 | IErr (INonce _) => 32 | IErr IBody => 64 | IErr IPanic => 128 | IErr _ => 256 end) 0 res
+      end)%N 0%N steps
+  end.
+
+(* ---- diagnosis: first invocation where model and implementation differ ------------------------- *)
+Fixpoint d_pipe (n : N) (e : penv) (l : ledger) (steps : list pstep) : option (N * presp * presp * list (N * list N)) :=
+  match steps with
+  | [] => None
+  | (r, resp, led) :: t =>
+    let '(l', x) := p_step e l r in
+    if bool_decide (x = resp) && same_led l' led then d_pipe (n + 1)%N e l' t else Some (n, x, resp, map_to_list l')
+  end.
+Definition diag (c : case) :=
+  match c with
+  | mkCase _ _ _ => None
+  | mkPipe e l0 steps => d_pipe 0 e (list_to_map l0) steps
+  end.
